@@ -36,7 +36,12 @@ KINDS = {
     "badhdr": ("f.py", "python"),
     "bin": ("g.dat", None),
     "ml": ("h.ml", "ml"),
+    # recognised by its whole name, not by a suffix - and an unrecognised file that has the same (empty) suffix
+    "named": ("Makefile", "python"),
+    "named2": ("Dockerfile", "python"),
+    "unrecnoext": ("NOTES", None),
 }
+UNREC = ("unrec", "unrecnoext")
 TERMINATOR = {"html": "-->", "c": "*/", "jinja": "#}", "ml": "*)"}
 
 
@@ -54,6 +59,9 @@ def setup(ctx):
 def write_kind(d, kind, idx):
     name, _ = KINDS[kind]
     f = d / f"{idx}_{name}"
+    if kind in ("named", "named2"):
+        (d / f"n{idx}").mkdir(exist_ok=True)
+        f = d / f"n{idx}" / name
     if kind == "badhdr":
         f.write_text("# SPDX-FileCopyrightText: 2001 Old\n# SPDX-License-Identifier: MIT AND OR\n\nK1 code\n")
     elif kind == "bin":
@@ -88,7 +96,7 @@ def run_one(res, ctx, root, rng, idx):
     if cause == "template-both":
         template = "dropboth"
     elif cause == "template-one":
-        template = rng.choice(["droplic", "dropcop", "droplic-commented", "dropboth-commented"])
+        template = rng.choice(["droplic", "dropcop", "droplic-commented", "dropboth-commented", "misspelt"])
     if template:
         args += ["--template", annot.template_arg(template)]
     if cause == "single-line":
@@ -123,8 +131,8 @@ def run_one(res, ctx, root, rng, idx):
     exp = {}
     for j, (k, f, sib) in enumerate(zip(kinds, files, siblings)):
         style = KINDS[k][1]
-        to_license = sib or k == "bin" or dot == "--force-dot-license" or (k == "unrec" and dot == "--fallback-dot-license")
-        if k in ("unrec", "bin") and not sib and dot is None and not forced:
+        to_license = sib or k == "bin" or dot == "--force-dot-license" or (k in UNREC and dot == "--fallback-dot-license")
+        if k in UNREC + ("bin",) and not sib and dot is None and not forced:
             usage = True  # no recognised comment style and no option saying what to do
         # the pre-flight line-handling check looks at the path annotate will open: FILE.license when it already exists
         if cause in ("single-line", "multi-line"):
@@ -136,7 +144,7 @@ def run_one(res, ctx, root, rng, idx):
                     usage = True
                 if cause == "multi-line" and not (st["multi"][0] and st["multi"][2]):
                     usage = True
-        if k == "unrec" and dot == "--skip-unrecognised" and not sib:
+        if k in UNREC and dot == "--skip-unrecognised" and not sib:
             exp[j] = "skip"
         elif template:
             exp[j] = "fail"
@@ -207,7 +215,7 @@ def run_one(res, ctx, root, rng, idx):
         f = files[j]
         rel = os.path.relpath(f, root)
         target = rel + ".license" if (siblings[j] or kinds[j] == "bin" or dot == "--force-dot-license" or
-                                      (kinds[j] == "unrec" and dot == "--fallback-dot-license")) else rel
+                                      (kinds[j] in UNREC and dot == "--fallback-dot-license")) else rel
         if e == "fail" and j not in reported_fail:
             res.violation(f"must-fail-not-reported:{cause}", f"{rel} ({kinds[j]}) must fail ({cause}) but was not reported failed ({desc})", stdout=r.stdout[-400:])
         elif e == "ok":
